@@ -959,7 +959,9 @@ func prngUnderStrength(t *engine.T, in *inst, chunk, strength int, seq []pev) {
 			return
 		}
 		if err != nil {
-			t.Outcome("prng-widen/under-strength/accepted-then-unreseedable/" + in.tag())
+			// a reader that was constructed without error and whose entropy source is healthy must keep serving: the
+			// constructor either refuses the strength or the reader can reseed with it
+			t.Fail("prng/read/spurious-error/accepted-strength-cannot-reseed/"+in.tag(), "[%s prng strength=%d] the constructor accepted the strength, then Read(%d) failed with %v although the entropy source never failed", in.name, strength, ev.size, err)
 			return
 		}
 	}
